@@ -440,6 +440,21 @@ def check_flow(eng, run):
             raise AnalysisError(f"anchor vanished: buffered level / transport attribute of {ci.name} flow control")
         level = next(iter(level))
         tattr = sorted(walrus)[0]
+        # direction of the two water-mark tests: reading is paused when the level is at or above a mark, resumed when it is at or below one
+        from sa.norm import cmp_canon
+        for hook, want, verb in ((pauser, 1, "pause"), (resumer, -1, "resume")):
+            t = next((x.test for x in own_nodes(hook.node) if isinstance(x, ast.If)), None)
+            dirs = []
+            for cmp_ in [x for x in ast.walk(t) if isinstance(x, ast.Compare)] if t is not None else []:
+                c = cmp_canon(hook, cmp_)
+                if c is not None and level in c[0] and c[1] in (">", ">=") and len([k for k in c[0] if k]) == 2:
+                    dirs.append(c[0][level])
+            ok_dir = bool(dirs) and all(d == want for d in dirs)
+            if dirs and not ok_dir:
+                run.finding("C03.flow", hook, hook.node, f"the water-mark test of {hook.name}() points the wrong way ({verb} reading must be decided by `level {'>=' if want == 1 else '<='} mark`): "
+                            + ("a read that empties the buffer in one step leaves the transport paused for ever - the rest of the stream and its end are never delivered" if want == -1
+                               else "reading is never paused and a full buffer is handed to the event loop"))
+            run.ob("C03.flow", f"{hook.short}:water-mark-direction", ok_dir or not dirs, comparisons=len(dirs))
         from sa.norm import nodes_inl, private_helper
 
         def changes_level(f):
@@ -575,6 +590,9 @@ def run(eng, run):
     _verify_anchor_names(eng, run)
     run.not_decided += NOT_DECIDED
     run.attempt(check_half_close, eng, run)
+    from rules import c15
+    from sa.report import RuleAlias as _RA
+    run.attempt(c15.check_own_closing_flag, eng, _RA(run, "C03.eof"))  # is_closing() must not turn true on a socket error: end-of-stream stays ECONNABORTED, it does not become "closed client"
     from rules import c12
     from sa.report import RuleAlias
     run.attempt(c12.check_lock_with_timeout, eng, RuleAlias(run, "C03.cli"))  # a receive lock that is never released: every later recv_packet() times out
